@@ -591,7 +591,7 @@ static Mat mat_xml(const json& els_in) {
             // multi-byte characters, an entity reference and a line break) is long enough to lie under every cut of
             // the element that the model's piece plans can make
             std::string text;
-            for (int k = 0; k < 40; ++k) text += "Gr\xc3\xbc\xc3\x9f" "e aus K\xc3\xb6ln " + std::to_string(j * 100 + k) + (k == 17 ? " &amp;\n" : ", ");
+            for (int k = 0; k < 40; ++k) text += "Gr\xc3\xbc\xc3\x9f" "e aus K\xc3\xb6ln " + std::to_string(j * 100 + k) + (k == 2 ? " &amp;\n" : ", ");
             s += " <changeset id=\"" + std::to_string(j) + "\" created_at=\"2020-01-01T00:00:00Z\" closed_at=\"2020-01-01T01:00:00Z\" open=\"false\""
                  " user=\"u\" uid=\"1\" num_changes=\"2\" comments_count=\"1\">\n  <tag k=\"comment\" v=\"c" + std::to_string(j) + "\"/>\n"
                  "  <discussion>\n   <comment uid=\"7\" user=\"\xc3\xa4nne\" date=\"2020-01-02T00:00:00Z\">\n    <text>" + text + "</text>\n   </comment>\n  </discussion>\n </changeset>\n";
